@@ -182,26 +182,28 @@ def short_circuits(ctx, P, f, subst):
            {"ALWAYS_ACTIVE": aa, "NEVER_ACTIVE": na})
     atoms = {"ALWAYS": A + "BeginTime() == -1", "NEVER": A + "BeginTime() == -2"}
     n = 0
+    # implications are decided over the code's own atoms (not renamed), so that the truth table knows that `x == -1` and `x == -2`
+    # exclude each other: the order of the two early returns does not matter.
+    ALWAYS, NEVER = F.atom(atoms["ALWAYS"]), F.atom(atoms["NEVER"])
     for e in exits(f, P, subst):
-        g, _, _ = F.bind_atoms(e.formula, atoms)
+        g = e.formula
         where = "%s:%s" % (f.file, e.line)
         if _is_enum(e.value):
             name = e.value[1][len(TS):]
-            want = {"ACTIVE": "ALWAYS", "FAILED": "NEVER && !ALWAYS"}.get(name)
-            ok = want is not None and F.implies(g, F.parse(want))
+            want = {"ACTIVE": F.mk_and([ALWAYS, F.mk_not(NEVER)]), "FAILED": F.mk_and([NEVER, F.mk_not(ALWAYS)])}.get(name)
+            ok = want is not None and F.implies(g, want)
             ctx.ob("GetStateFor/short-circuit-%s@L%s" % (name, e.line), "LADDER", "a constant %s is returned only for the %s sentinel start time" % (
                 name, {"ACTIVE": "ALWAYS_ACTIVE", "FAILED": "NEVER_ACTIVE"}.get(name, "?")), ok, where)
             n += 1
         else:
-            ok = F.implies(g, F.parse("!ALWAYS && !NEVER"))
+            ok = F.implies(g, F.mk_and([F.mk_not(ALWAYS), F.mk_not(NEVER)]))
             ctx.ob("GetStateFor/computed-only-if-normal@L%s" % e.line, "LADDER", "the computed state is returned only if the deployment is neither ALWAYS_ACTIVE nor "
                    "NEVER_ACTIVE (both short-circuit first)", ok, where)
     ctx.floor("GetStateFor constant returns", n, 2)
     # the short-circuits precede every cache access
     cache_use = lambda e: (e[0] in ("idx", "mcall") and any(match(["param", "cache"], x) for x in e[1:] if is_expr(x)))
     for s in sites(f, cache_use, P):
-        g, _, _ = F.bind_atoms(s.formula(subst), atoms)
-        if not F.implies(g, F.parse("!ALWAYS && !NEVER")):
+        if not F.implies(s.formula(subst), F.mk_and([F.mk_not(ALWAYS), F.mk_not(NEVER)])):
             ctx.ob("GetStateFor/cache-after-short-circuit@L%s" % s.line, "ORDER", "the cache is touched only for normal deployments", False, s.where)
 
 
